@@ -857,6 +857,8 @@ func verifC11(t *testing.T, r *vfh.Rand, out *vfh.Out) {
 	v.random(vfh.N(1500, 40000), true)
 	// (4) opportunistic: the real dial() on a real interface
 	vRealDial(t, out)
+	vRealDialModes(t, out)
+	verifSysctl(t, r, out)
 	t.Logf("C11: %d runs, %d distinct cases", v.runs, len(v.seen))
 }
 
@@ -872,6 +874,78 @@ func (s *vRealState) SetIPv6Autoconf(string, bool) error {
 		return errors.New("injected failure of SetIPv6Autoconf")
 	}
 	return nil // never touches the host
+}
+
+// vRecState records the State calls made by the real dial()/done() (never touches the host).
+type vRecState struct {
+	ac   bool
+	toks *vfh.Toks
+}
+
+func (s *vRecState) IPv6Autoconf(string) (bool, error) {
+	s.toks.S("g" + vBs(s.ac))
+	return s.ac, nil
+}
+func (s *vRecState) IPv6Forwarding(string) (bool, error) { return true, nil }
+func (s *vRecState) SetIPv6Autoconf(_ string, v bool) error {
+	s.toks.S("s" + vBs(v))
+	s.ac = v
+	return nil
+}
+
+
+func vBs(b bool) string {
+	if b {
+		return "1"
+	}
+	return "0"
+}
+
+// vRealDialModes writes `rdm ran adv ac0 | (g<v> | s<v>)* D (s<v>)* fdDelta`: the State calls
+// the real dial() makes in Advertise / Monitor mode for both initial autoconf values, a marker
+// when dial() has returned, the calls made by the connection's done(), and the change in open
+// file descriptors over the whole bracket.
+func vRealDialModes(t *testing.T, out *vfh.Out) {
+	defer func() {
+		if r := recover(); r != nil {
+			t.Logf("C11 real dial() modes: panic: %v", r)
+		}
+	}()
+	const iface = "eth0"
+	if os.Geteuid() != 0 {
+		out.Line("rdm 0 0 0", "skip")
+		return
+	}
+	ifi, err := lookupInterface(iface)
+	if err != nil || checkInterface(ifi, ifi.Addrs) != nil {
+		out.Line("rdm 0 0 0", "skip")
+		return
+	}
+	old := debug.SetGCPercent(-1)
+	defer debug.SetGCPercent(old)
+	for _, adv := range []bool{true, false} {
+		for _, ac0 := range []bool{true, false} {
+			mode := Monitor
+			if adv {
+				mode = Advertise
+			}
+			st := &vRecState{ac: ac0, toks: new(vfh.Toks)}
+			d := NewDialer(iface, st, mode, nil)
+			before, _ := vCountFDs()
+			dctx, err := d.dial()
+			if err != nil {
+				out.Line("rdm 0 0 0", "skip")
+				return
+			}
+			st.toks.S("D")
+			if err := dctx.done(); err != nil {
+				st.toks.S("done-failed")
+			}
+			after, _ := vCountFDs()
+			st.toks.N(after - before)
+			out.Line(new(vfh.Toks).S("rdm").N(1).B(adv).B(ac0).String(), st.toks.String())
+		}
+	}
 }
 
 func vCountFDs() (int, error) {
